@@ -57,7 +57,8 @@ func (e *Engine) intrinsic(fr *Frame, st *State, name string, fn *ssa.Function, 
 			fresh := func() string { e.nfresh++; return fmt.Sprintf("k%d", e.nfresh) }
 			bodies := []string{bt.S}
 			// nested quantifiers: also start from the bodies whose inner quantifier is already shifted
-			for inner, shifted := range e.altOnly {
+			for _, inner := range sortedKeys(e.altOnly) {
+				shifted := e.altOnly[inner]
 				if strings.Contains(bt.S, inner) {
 					for _, sh := range shifted {
 						bodies = append(bodies, strings.ReplaceAll(bt.S, inner, sh))
